@@ -37,6 +37,7 @@ MUTANTS = [
     {"id": "c02-nullable-one-round", "expect": "fire", "edits": [(L, "        while len(cur_set) != len(next_set):", "        for _ in range(2):")]},
     {"id": "c02-lookup-key-swapped", "expect": "fire", "edits": [(L, "prods = self.parse_table.get((cur_symbol, next_token.name))", "prods = self.parse_table.get((next_token.name, cur_symbol))")]},
     {"id": "c02-ambiguous-gt2", "expect": "fire", "edits": [(L, "return any(len(prods) != 1 for prods in self.parse_table.values())", "return any(len(prods) > 2 for prods in self.parse_table.values())")]},
+    {"id": "c02-subscript-lookup", "expect": "fire", "edits": [(L, "                prods = self.parse_table.get((cur_symbol, next_token.name))\n                if prods is not None:", "                prods = self.parse_table[cur_symbol, next_token.name]\n                if prods:")]},
     # neutral
     {"id": "c02-n-ior", "expect": "silent", "edits": [(L, "                            follow_sets[cur_symbol].update(first_sets[next_symbol])", "                            follow_sets[cur_symbol] |= first_sets[next_symbol]")]},
     {"id": "c02-n-table-update", "expect": "silent", "edits": [(L, "                    start_symbols |= first_sets[symbol]", "                    start_symbols.update(first_sets[symbol])")]},
